@@ -17,6 +17,12 @@ CHECKS = {
         text="Kernel-level totality: for all 64-bit / double inputs the panic condition of every numeric kernel of function.rs is decided, NaN production at finite inputs is decided for the non-transcendental float kernels; the size arithmetic of each relation constructor is checked for every input size >= 0 and every LIMIT/OFFSET (one inductive step covers relation trees of any depth); values_len is checked against the hull width for every interval. Pipeline-level totality (sqlparser, builders, todo!()) is outside.",
         note="Trusted: MIR translation + callee table + stubs listed in evidence (from_interval panics iff min>max; input sizes arbitrary with 0<=max). Every counterexample is replayed through Function::value/super_image or SQL->Relation before being reported.",
         design="3 C18"),
+    "C15": dict(
+        level="model_checking", engine="M (MIR->SMT with combinator models) + driver replay",
+        technique="SMT over the MIR of Hierarchy::get_key_value, its closures, is_suffix_of and From<Found>: symbolic map contents and lookup path vs. the documented rule; inductive step of the fold closure; replay on a real Hierarchy",
+        text="The lookup bodies are translated from the MIR of the current tree (closures inlined, std combinators modelled) and compared with the specification for every map of up to 3 (thorough: 4) entries with keys of 1-3 components over an unbounded alphabet and every lookup path; the fold step is checked inductively against the Zero/One/More counting invariant, which covers maps of any size for the suffix branch. The SQL-level clause is enumeration of negative programs through the real compiler (reported as such).",
+        note="Trusted: combinator models in lib/hof.py (validated on random concrete maps against the real Hierarchy every run), BTreeMap iterates in key order. A structural change the models do not cover makes the check inconclusive (exit 2), never passing.",
+        design="3 C15"),
 }
 
 NOT_APPLICABLE = {
@@ -38,7 +44,6 @@ NOT_YET = {
     "C11": "not built yet",
     "C13": "not built yet",
     "C14": "not built yet",
-    "C15": "not built yet",
 }
 
 
